@@ -19,7 +19,7 @@ pub fn def() -> CheckDef {
 fn meta(_ctx: &Ctx) -> Meta {
     Meta {
         level: "exploration",
-        rule: "for the assets (also signed/cleared), packages emitted for seeded builder configurations (built/signed with four key types/cleared) and hand-encoded packages (entry counts 0..50, explicit sweep of signature-store sizes 0..40 so that every residue mod 8 occurs, random others), get_package_segment_offsets() is compared with the boundaries found by walking the bytes produced by Package::write with the independent decoder; header magic must sit at both header offsets, len - payload offset must equal the payload length, offsets strictly increasing. distinct_nontrivial = distinct packages judged; counters list the signature-store residues mod 8 seen".into(),
+        rule: "for the assets (also signed/cleared), packages emitted for seeded builder configurations (built/signed with four key types/cleared) and hand-encoded packages (entry counts 0..50, explicit sweep of signature-store sizes 0..40 so that every residue mod 8 occurs, random others), get_package_segment_offsets() is compared with the boundaries found by walking the bytes produced by Package::write with the independent decoder; header magic must sit at both header offsets, len - payload offset must equal the payload length, offsets strictly increasing. Further sweeps: unreferenced bytes at the end of either store, every prefix of sample inputs (whatever is accepted is judged), last string of the last entry unterminated at the end of the data section. distinct_nontrivial = distinct packages judged; counters list the signature-store residues mod 8 seen".into(),
         assumptions: vec!["independent decoder".into()],
         floor_distinct: 100,
     }
@@ -135,6 +135,34 @@ fn run(ctx: &Ctx, rep: &Report) {
             Ok(Ok(p)) => observe(rep, &mut local, "slack-sweep", &p, json!({"input_hex": hex::encode(b)})),
             Ok(Err(_)) => *local.entry("rejected.slack-sweep".into()).or_insert(0) += 1,
             Err(_) => *local.entry("panicked.slack-sweep(judged by C04)".into()).or_insert(0) += 1,
+        }
+    }
+    // the last string of the last entry runs to the end of the data section without a terminator
+    // (STRING, STRING_ARRAY and I18NSTRING; 1-3 items), in the signature header and in the main header
+    for which in 0..2 {
+        for kind in 0..3 {
+            for n in 1..=3usize {
+                let strs: Vec<Vec<u8>> = (0..n).map(|i| format!("item{i}").into_bytes()).collect();
+                let last = match kind {
+                    0 => Val::Str(strs[0].clone()),
+                    1 => Val::StrArray(strs.clone()),
+                    _ => Val::I18n(strs.clone()),
+                };
+                let mut items: Vec<(u32, Val)> = vec![(1000, Val::Str(b"n".to_vec())), (1001, Val::Int32(vec![7]))];
+                items.push((1002 + kind as u32, last));
+                let (e, mut st) = layout(&items);
+                st.pop(); // drop the final NUL: the data section now ends inside the last string
+                let cut = enc_header(&e, &st);
+                let (oe, os) = layout(&[(1000, Val::Str(b"other".to_vec()))]);
+                let other = enc_header(&oe, &os);
+                let b = if which == 0 { enc_package(&enc_lead("tail"), &cut, &other, b"payload-bytes") } else { enc_package(&enc_lead("tail"), &other, &cut, b"payload-bytes") };
+                rep.eval(1);
+                match guard(|| Package::parse(&mut &b[..])) {
+                    Ok(Ok(p)) => observe(rep, &mut local, "unterminated-tail", &p, json!({"input_hex": hex::encode(&b)})),
+                    Ok(Err(_)) => *local.entry("rejected.unterminated-tail".into()).or_insert(0) += 1,
+                    Err(_) => *local.entry("panicked.unterminated-tail(judged by C04)".into()).or_insert(0) += 1,
+                }
+            }
         }
     }
     // every prefix of a few of those inputs: whatever the parser accepts must obey the property
